@@ -724,6 +724,11 @@ class Interp(ExprMixin, StmtMixin):
         one = ops.int_const(1)
         a, b = keyof(z3.Select(S.arr, k)), keyof(z3.Select(S.arr, k + one))
         ctx.assume(z3.ForAll([k], z3.Implies(zand(k >= zero, k + one < S.length), a < b), patterns=[z3.Select(S.arr, k)]))
+        if getattr(self, "sorted_global", False):
+            k2 = ops.int_var(nm + "$k2")
+            a2, b2 = keyof(z3.Select(S.arr, k)), keyof(z3.Select(S.arr, k2))
+            ctx.assume(z3.ForAll([k, k2], z3.Implies(zand(k >= zero, k < k2, k2 < S.length), a2 < b2),
+                                 patterns=[z3.MultiPattern(z3.Select(S.arr, k), z3.Select(S.arr, k2))]))
         self.sorted_lists = getattr(self, "sorted_lists", [])
         self.sorted_lists.append((S, src, key))
         return S
